@@ -607,7 +607,11 @@ fn generate(suite: &str, seed: u64, n: usize, out: &mut dyn Write) {
                 // field names: mostly f0..f5; sometimes names that collide with what the derive generates (`t_<field>`
                 // members, the `easing` / `timescale` / `boundary_times` / `data` members, the `new` / `values_from` methods)
                 let odd_names = r.chance(1, 5);
+                let underscore_names = !odd_names && r.chance(1, 6);
                 let name_of = |r: &mut Rng, k: usize| -> String {
+                    // one struct in six has some field names starting with an underscore (`_w`, `_pad`, `__x`, `_`-prefixed
+                    // next to plain ones): a name is a name, the derive's "no field marked ⇒ all animated" rule does not read it
+                    if underscore_names && (k % 2 == 1 || r.chance(1, 3)) { return ["_w", "_pad", "__x", "_f", "_0", "_marker"][k % 6].to_string(); }
                     if !odd_names { return format!("f{}", k); }
                     match (k, r.below(3)) {
                         (0, _) => "x".to_string(),
